@@ -41,11 +41,18 @@ class TreeGen:
         self.n_single = 0
 
     def fresh_name(self, pl):
-        while True:
+        # rejection sampling, but never for ever: a tree that needs more names than the label space offers (or nearly
+        # as many) gets names beyond it
+        for _ in range(200):
             n = self.r.randrange(self.label_space)
             if n not in self.used_names[pl]:
                 self.used_names[pl].add(n)
                 return n
+        n = self.label_space + len(self.used_names[pl])
+        while n in self.used_names[pl]:
+            n += 1
+        self.used_names[pl].add(n)
+        return n
 
     def payoff(self):
         if self.int_payoffs:
